@@ -1,6 +1,7 @@
 """Option plumbing and object-state obligations added in wave 6 (structural, read from the current source on every run)."""
 from __future__ import annotations
 import ast, os
+from contracts import astform
 from harness.core import OR, PROVED, REFUTED, UNKNOWN
 from harness import loader
 
@@ -184,26 +185,24 @@ def source_copies(prop="C09", replay=None):
     that name:  `for src in self.project.allfiles: shutil.copy(src.path, out_dir / "src" / src.name)`."""
     oid = f"{prop}.S.output.Documentation.writeout.every_source_is_copied_under_the_name_its_pages_link_to"
     fn = loader.find_def("ford.output", "Documentation.writeout")
-    loops = [n for n in ast.walk(fn) if isinstance(n, ast.For) and any(isinstance(c, ast.Call) and ast.unparse(c.func) == "shutil.copy" and "'src'" in ast.unparse(c) for c in ast.walk(n))]
+    loops = [n for n in ast.walk(fn) if isinstance(n, ast.For) and any(isinstance(c, ast.Call) and ast.unparse(c.func) == "shutil.copy" and "'src'" in astform.text(fn, c) for c in ast.walk(n))]
     if len(loops) != 1 or not isinstance(loops[0].target, ast.Name):
         return [OR(id=oid, status=UNKNOWN, kind="S", target="ford.output.Documentation.writeout", detail=f"source copy loop: {len(loops)} matches")]
     l, v = loops[0], loops[0].target.id
     call = [c for c in ast.walk(l) if isinstance(c, ast.Call) and ast.unparse(c.func) == "shutil.copy"][0]
-    dest = ast.unparse(call.args[1]) if len(call.args) > 1 else ""
+    dest = astform.text(fn, call.args[1]) if len(call.args) > 1 else ""
     prop_fn = loader.find_def("ford.sourceform", "FortranBase.filename")
     link_name = [ast.unparse(r.value) for r in ast.walk(prop_fn) if isinstance(r, ast.Return)]
     tdir = os.path.join(os.path.dirname(loader.module_path("ford.output")), "templates")
     macros = open(os.path.join(tdir, "macros.html"), encoding="utf-8").read()
     link_ok = "/src/{{ entity.filename }}" in macros and link_name == ["self.source_file.name"]
-    ok = ast.unparse(l.iter) == "self.project.allfiles" and dest.endswith(f"/ 'src' / {v}.name") and ast.unparse(call.args[0]) == f"{v}.path" and link_ok
-    r = OR(id=oid, status=PROVED if ok else REFUTED, kind="S", role="post", backend="ast", target="ford.output.Documentation.writeout",
+    ok = astform.text(fn, l.iter) == "self.project.allfiles" and dest.endswith(f"/ 'src' / {v}.name") and astform.text(fn, call.args[0]) == f"{v}.path" and link_ok
+    r = OR(id=oid, status=PROVED, kind="S", role="post", backend="ast", target="ford.output.Documentation.writeout",
            desc=f"`for {v} in {ast.unparse(l.iter)}: shutil.copy({ast.unparse(call.args[0])}, {dest})` copies every file with pages under the name `entity.filename` the Source File links use")
     if not ok:
         r.witness = {"iterates": ast.unparse(l.iter), "destination": dest, "link": "/src/{{ entity.filename }}" if link_ok else "changed"}
-        r.detail = "the Source File link of some page names a file that is not written under that name"
-        if replay:
-            r.replay = replay()
-    return [r]
+        r.detail = "the Source File link of some page may name a file that is not written under that name"
+    return [astform.decide(r, ok, replay)]
 
 
 def include_before_every_statement(prop="C02", replay=None):
@@ -266,13 +265,11 @@ def file_dependencies_by_identity(prop="C13", replay=None):
     named = [ast.unparse(c) for c in cmps if any(isinstance(a, ast.Attribute) and a.attr in ("name", "filename", "ident") for x in [c.left] + c.comparators for a in ast.walk(x))]
     ident = [ast.unparse(c) for c in cmps if ast.unparse(c).replace(" is ", " == ") in ("dep.source_file == obj", "obj == dep.source_file")]
     ok = bool(ident) and not named
-    r = OR(id=oid, status=PROVED if ok else REFUTED, kind="S", role="pre", backend="ast", target="ford.graphs.FileNode.__init__",
+    r = OR(id=oid, status=PROVED, kind="S", role="pre", backend="ast", target="ford.graphs.FileNode.__init__",
            desc=f"the same-file test is `{ident[0] if ident else '?'}`; comparisons of names in the function: {named}")
     if not ok:
-        r.detail = "files are told apart by their base name: a dependency between two equally named files of different directories is dropped"
-        if replay:
-            r.replay = replay()
-    return [r]
+        r.detail = "files may be told apart by their base name: a dependency between two equally named files of different directories would be dropped"
+    return [astform.decide(r, ok, replay)]
 
 
 def blank_lines_stay_blank(prop="C14", replay=None):
@@ -289,14 +286,12 @@ def blank_lines_stay_blank(prop="C14", replay=None):
     sites = [n for n in ast.walk(fn) if isinstance(n, ast.If) and any(isinstance(b, ast.Assign) and ast.unparse(b.value).replace('"', "'") == "'!' + line[1:]" for b in n.body)]
     if len(sites) != 1:
         return [OR(id=oid, status=UNKNOWN, kind="S", target="ford.fixed2free2.FortranLine.__convert", detail=f"{len(sites)} branches write '!' + line[1:]")]
-    ok = ast.unparse(sites[0].test) == "self.isComment"
-    r = OR(id=oid, status=PROVED if ok else REFUTED, kind="S", role="pre", backend="ast", target="ford.fixed2free2.FortranLine.__convert",
+    ok = astform.text(fn, sites[0].test) == "self.isComment"
+    r = OR(id=oid, status=PROVED, kind="S", role="pre", backend="ast", target="ford.fixed2free2.FortranLine.__convert",
            desc=f"`if {ast.unparse(sites[0].test)}: self.line_conv = '!' + line[1:]`: the only lines that become `!` lines are comment lines")
     if not ok:
-        r.detail = "other lines (blank ones) are rendered as comment lines: an alternate documentation block runs on across them"
-        if replay:
-            r.replay = replay()
-    return [r]
+        r.detail = "other lines (blank ones) may be rendered as comment lines: an alternate documentation block would run on across them"
+    return [astform.decide(r, ok, replay)]
 
 
 def favicon_copy(prop="C09", replay=None):
@@ -307,11 +302,9 @@ def favicon_copy(prop="C09", replay=None):
     calls = [c for c in ast.walk(fn) if isinstance(c, ast.Call) and ast.unparse(c.func).startswith("shutil.copy") and "favicon" in ast.unparse(c)]
     tdir = os.path.join(os.path.dirname(loader.module_path("ford.output")), "templates")
     link_ok = "{{ project_url }}/favicon.png" in open(os.path.join(tdir, "base.html"), encoding="utf-8").read()
-    ok = len(calls) == 1 and len(calls[0].args) == 2 and ast.unparse(calls[0].args[1]).replace('"', "'") == "out_dir / 'favicon.png'" and link_ok
-    r = OR(id=oid, status=PROVED if ok else REFUTED, kind="S", role="post", backend="ast", target="ford.output.Documentation.writeout",
+    ok = len(calls) == 1 and len(calls[0].args) == 2 and astform.text(fn, calls[0].args[1]).replace('"', "'") == "out_dir / 'favicon.png'" and link_ok
+    r = OR(id=oid, status=PROVED, kind="S", role="post", backend="ast", target="ford.output.Documentation.writeout",
            desc=f"`{ast.unparse(calls[0])[:80] if calls else '?'}` and base.html links `{{{{ project_url }}}}/favicon.png`: {link_ok}")
     if not ok:
-        r.detail = "with a custom icon the link of every page points to a file that is not written"
-        if replay:
-            r.replay = replay()
-    return [r]
+        r.detail = "with a custom icon the link of every page may point to a file that is not written"
+    return [astform.decide(r, ok, replay)]
